@@ -301,20 +301,29 @@ theorem sim_cachedRead {n : NodeId} {r : Reg} {a : Int}
     exact ⟨rfl, ⟨devRel_log_drop hdev _ rfl rfl, hinv⟩,
       fun b hb => by cases hb; exact peek_length (hinv.coherent _ _ _ _ hget)⟩
 
+/-- write primitive, from one related pair of states, under `PairOk` for that cache state -/
+theorem sim_writeAt_at {n : NodeId} {r : Reg} {a : Int} {buf : Bytes}
+    (hn : g[n]? = some (.reg r)) (hk : KeyAddr p g r a) (hlen : buf.length = r.len)
+    {sC : St Store} {sU : St Unit} (hR : Rel p g sC sU) (hP : PairOk p g sC.cache n r) :
+    (writeAt defaultCache g n r a buf sC).1 = (writeAt sinkCache g n r a buf sU).1 ∧
+      Rel p g (writeAt defaultCache g n r a buf sC).2 (writeAt sinkCache g n r a buf sU).2 := by
+  obtain ⟨hdev, hinv⟩ := hR
+  rw [writeAt_eq, writeAt_eq]
+  by_cases h2 : g[r.port]? = some .port
+  · have hdw := devRel_write hdev a buf
+    rw [if_pos h2, if_pos h2]
+    refine ⟨hdw.1, ⟨hdw.2, ?_⟩⟩
+    have hw := devRel_writeOk hdev a buf.length
+    exact inv_write hP hinv hn h2 hk hlen
+  · rw [if_neg h2, if_neg h2]
+    exact ⟨rfl, ⟨hdev, inv_invalidateBy hinv n⟩⟩
+
 theorem sim_writeAt (hD : Declared p g) {n : NodeId} {r : Reg} {a : Int} {buf : Bytes}
     (hn : g[n]? = some (.reg r)) (hk : KeyAddr p g r a) (hlen : buf.length = r.len) :
     Sim p g (fun _ => True) (writeAt defaultCache g n r a buf) (writeAt sinkCache g n r a buf) := by
   intro sC sU hR
-  obtain ⟨hdev, hinv⟩ := hR
-  rw [writeAt_eq, writeAt_eq]
-  by_cases h2 : g[r.port]? = some .port
-  · have hw := devRel_writeOk hdev a buf.length
-    have hdw := devRel_write hdev a buf
-    rw [if_pos h2, if_pos h2]
-    refine ⟨hdw.1, ⟨hdw.2, ?_⟩, fun _ _ => trivial⟩
-    exact inv_write hD hinv hn h2 hk hlen
-  · rw [if_neg h2, if_neg h2]
-    exact ⟨rfl, ⟨hdev, inv_invalidateBy hinv n⟩, fun _ _ => trivial⟩
+  obtain ⟨h1, h2⟩ := sim_writeAt_at hn hk hlen hR (pairOk_of_declared hD _ hn)
+  exact ⟨h1, h2, fun _ _ => trivial⟩
 
 theorem sim_portWrite {pn : NodeId} (hP : PortDeclared g pn) (a : Int) (buf : Bytes) :
     Sim p g (fun _ => True) (portWrite defaultCache g pn a buf) (portWrite sinkCache g pn a buf) := by
@@ -418,6 +427,7 @@ theorem sim_evalInt (fuel : Nat) :
       | port => exact sim_fail _
       | command _ _ => exact sim_fail _
       | boolean _ _ _ => exact sim_fail _
+      | ctls _ => exact sim_fail _
       | integer pv cs =>
         refine sim_weaken (ih pv) (fun v _ => inSelRange_trivial ?_ v)
         unfold selRange; rw [hn]
@@ -467,6 +477,7 @@ theorem sim_setInt (hD : Declared p g) (fuel : Nat) :
       | port => exact sim_fail _
       | command _ _ => exact sim_fail _
       | boolean _ _ _ => exact sim_fail _
+      | ctls _ => exact sim_fail _
       | integer pv cs =>
         dsimp only
         refine sim_bind (sim_invBy n) (fun _ _ => ?_)
@@ -507,6 +518,7 @@ theorem sim_opValue (fuel : Nat) (n : NodeId) :
     cases nd with
     | port => exact sim_fail _
     | command _ _ => exact sim_fail _
+    | ctls _ => exact sim_fail _
     | integer pv cs =>
       dsimp only
       exact sim_bind (sim_evalInt fuel n) (fun v _ => sim_pure _ trivial)
@@ -546,6 +558,7 @@ theorem sim_opSetValue (hD : Declared p g) (fuel : Nat) (n : NodeId) (v : Val) :
     cases nd with
     | port => exact sim_fail _
     | command _ _ => exact sim_fail _
+    | ctls _ => exact sim_fail _
     | integer pv cs =>
       dsimp only
       cases v with
@@ -645,6 +658,152 @@ theorem sim_opExecute (hD : Declared p g) (fuel : Nat) (n : NodeId) :
       exact sim_bind (sim_setInt hD fuel pv cv) (fun _ _ => sim_pure _ trivial)
     | _ => exact sim_fail _
 
+theorem sim_boolFromId (F : Nat) (c : NodeId) :
+    Sim p g (fun _ => True) (boolFromId defaultCache p g F c) (boolFromId sinkCache p g F c) := by
+  unfold boolFromId
+  cases hn : g[c]? with
+  | none => exact sim_fail _
+  | some nd =>
+    cases nd with
+    | boolean pv on off =>
+      dsimp only
+      refine sim_bind (sim_evalInt F pv) (fun v _ => ?_)
+      exact sim_ite (sim_pure _ trivial) (sim_ite (sim_pure _ trivial) (sim_fail _))
+    | integer _ _ =>
+      exact sim_bind (sim_evalInt F c) (fun v _ => sim_pure _ trivial)
+    | reg r =>
+      dsimp only
+      cases r.kind with
+      | int _ _ => exact sim_bind (sim_evalInt F c) (fun v _ => sim_pure _ trivial)
+      | masked _ _ _ _ => exact sim_bind (sim_evalInt F c) (fun v _ => sim_pure _ trivial)
+      | _ => exact sim_fail _
+    | _ => exact sim_fail _
+
+theorem sim_ctlVal (F : Nat) (o : Option NodeId) (d : Bool) :
+    Sim p g (fun _ => True) (ctlVal defaultCache p g F o d) (ctlVal sinkCache p g F o d) := by
+  unfold ctlVal
+  cases o with
+  | none => exact sim_pure _ trivial
+  | some c => exact sim_boolFromId F c
+
+theorem sim_baseReadable (F : Nat) (n : NodeId) :
+    Sim p g (fun _ => True) (baseReadable defaultCache p g F n) (baseReadable sinkCache p g F n) := by
+  unfold baseReadable
+  exact sim_bind (sim_ctlVal F _ _) (fun i _ => sim_ite (sim_ctlVal F _ _) (sim_pure _ trivial))
+
+theorem sim_baseWritable (F : Nat) (n : NodeId) :
+    Sim p g (fun _ => True) (baseWritable defaultCache p g F n) (baseWritable sinkCache p g F n) := by
+  unfold baseWritable
+  refine sim_bind (sim_ctlVal F _ _) (fun i _ => sim_ite ?_ (sim_pure _ trivial))
+  refine sim_bind (sim_ctlVal F _ _) (fun a _ => sim_ite ?_ (sim_pure _ trivial))
+  exact sim_bind (sim_ctlVal F _ _) (fun l _ => sim_pure _ trivial)
+
+theorem sim_isReadableI (F : Nat) (fuel : Nat) :
+    ∀ n, Sim p g (fun _ => True) (isReadableI defaultCache p g F fuel n)
+      (isReadableI sinkCache p g F fuel n) := by
+  induction fuel with
+  | zero => intro n; simp only [isReadableI]; exact sim_panic
+  | succ f ih =>
+    intro n
+    simp only [isReadableI]
+    cases hn : g[n]? with
+    | none => exact sim_panic
+    | some nd =>
+      cases nd with
+      | integer pv _ =>
+        exact sim_bind (sim_baseReadable F n) (fun b _ => sim_ite (ih pv) (sim_pure _ trivial))
+      | enumeration pv _ =>
+        exact sim_bind (sim_baseReadable F n) (fun b _ => sim_ite (ih pv) (sim_pure _ trivial))
+      | reg r =>
+        dsimp only
+        cases r.kind with
+        | int _ _ => exact sim_bind (sim_baseReadable F n) (fun b _ => sim_pure _ trivial)
+        | masked _ _ _ _ => exact sim_bind (sim_baseReadable F n) (fun b _ => sim_pure _ trivial)
+        | _ => exact sim_pure _ trivial
+      | _ => exact sim_pure _ trivial
+
+theorem sim_andAllM {fC : NodeId → M Store Bool} {fU : NodeId → M Unit Bool}
+    (hf : ∀ c, Sim p g (fun _ => True) (fC c) (fU c)) (cs : List NodeId) :
+    ∀ b, Sim p g (fun _ => True) (andAllM fC cs b) (andAllM fU cs b) := by
+  induction cs with
+  | nil => intro b; exact sim_pure _ trivial
+  | cons c cs ih => intro b; exact sim_bind (hf c) (fun y _ => ih _)
+
+theorem sim_isWritableI (F : Nat) (fuel : Nat) :
+    ∀ n, Sim p g (fun _ => True) (isWritableI defaultCache p g F fuel n)
+      (isWritableI sinkCache p g F fuel n) := by
+  induction fuel with
+  | zero => intro n; simp only [isWritableI]; exact sim_panic
+  | succ f ih =>
+    intro n
+    simp only [isWritableI]
+    cases hn : g[n]? with
+    | none => exact sim_panic
+    | some nd =>
+      cases nd with
+      | integer pv cs =>
+        refine sim_bind (sim_baseWritable F n) (fun b _ => sim_ite ?_ (sim_pure _ trivial))
+        exact sim_bind (ih pv) (fun x _ => sim_andAllM ih cs x)
+      | enumeration pv _ =>
+        exact sim_bind (sim_baseWritable F n) (fun b _ => sim_ite (ih pv) (sim_pure _ trivial))
+      | reg r =>
+        dsimp only
+        cases r.kind with
+        | int _ _ => exact sim_bind (sim_baseWritable F n) (fun b _ => sim_pure _ trivial)
+        | masked _ _ _ _ => exact sim_bind (sim_baseWritable F n) (fun b _ => sim_pure _ trivial)
+        | _ => exact sim_pure _ trivial
+      | _ => exact sim_pure _ trivial
+
+theorem sim_opIsReadable (F : Nat) (n : NodeId) :
+    Sim p g (fun _ => True) (opIsReadable defaultCache p g F n) (opIsReadable sinkCache p g F n) := by
+  unfold opIsReadable
+  cases hn : g[n]? with
+  | none => exact sim_fail _
+  | some nd =>
+    cases nd with
+    | reg r =>
+      dsimp only
+      cases r.kind <;> first
+        | exact sim_fail _
+        | exact sim_bind (sim_baseReadable F n) (fun b _ => sim_pure _ trivial)
+    | integer _ _ => exact sim_bind (sim_isReadableI F F n) (fun b _ => sim_pure _ trivial)
+    | enumeration _ _ => exact sim_bind (sim_isReadableI F F n) (fun b _ => sim_pure _ trivial)
+    | boolean pv _ _ =>
+      refine sim_bind (sim_baseReadable F n) (fun b _ => sim_ite ?_ (sim_pure _ trivial))
+      exact sim_bind (sim_isReadableI F F pv) (fun x _ => sim_pure _ trivial)
+    | _ => exact sim_fail _
+
+theorem sim_opIsWritable (F : Nat) (n : NodeId) :
+    Sim p g (fun _ => True) (opIsWritable defaultCache p g F n) (opIsWritable sinkCache p g F n) := by
+  unfold opIsWritable
+  have hfeat : ∀ pv, Sim p g (fun _ => True)
+      (do let b ← baseWritable defaultCache p g F n
+          if b then do
+            let x ← isWritableI defaultCache p g F F pv
+            M.pure (Val.bool x)
+          else M.pure (Val.bool false))
+      (do let b ← baseWritable sinkCache p g F n
+          if b then do
+            let x ← isWritableI sinkCache p g F F pv
+            M.pure (Val.bool x)
+          else M.pure (Val.bool false)) := fun pv =>
+    sim_bind (sim_baseWritable F n) (fun b _ => sim_ite
+      (sim_bind (sim_isWritableI F F pv) (fun x _ => sim_pure _ trivial)) (sim_pure _ trivial))
+  cases hn : g[n]? with
+  | none => exact sim_fail _
+  | some nd =>
+    cases nd with
+    | reg r =>
+      dsimp only
+      cases r.kind <;> first
+        | exact sim_fail _
+        | exact sim_bind (sim_baseWritable F n) (fun b _ => sim_pure _ trivial)
+    | integer _ _ => exact sim_bind (sim_isWritableI F F n) (fun b _ => sim_pure _ trivial)
+    | enumeration pv _ => exact hfeat pv
+    | boolean pv _ _ => exact hfeat pv
+    | command pv _ => exact hfeat pv
+    | _ => exact sim_fail _
+
 theorem sim_opIsDone (fuel : Nat) (n : NodeId) :
     Sim p g (fun _ => True) (opIsDone defaultCache p g fuel n) (opIsDone sinkCache p g fuel n) := by
   unfold opIsDone
@@ -655,7 +814,7 @@ theorem sim_opIsDone (fuel : Nat) (n : NodeId) :
     | command pv cv =>
       dsimp only
       refine sim_bind (sim_invOf pv) (fun _ _ => ?_)
-      refine sim_bind (sim_lift (P := fun _ => True) _ (fun _ _ => trivial)) (fun rd _ => ?_)
+      refine sim_bind (sim_isReadableI fuel fuel pv) (fun rd _ => ?_)
       cases rd with
       | true =>
         simp only [if_true]
@@ -694,6 +853,8 @@ theorem sim_evalOp (hD : Declared p g) (fuel : Nat) (op : Op)
   | clearCache =>
     exact sim_bind sim_clearCache (fun _ _ => sim_pure _ trivial)
   | address n => exact sim_opAddress fuel n
+  | isReadable n => exact sim_opIsReadable fuel n
+  | isWritable n => exact sim_opIsWritable fuel n
 
 /-- one public operation -/
 theorem sim_run (hD : Declared p g) (op : Op)
